@@ -485,4 +485,6 @@ theorem relLaxW_located {g : Mem} {m : Packet} {s : Packet × Option Fault} (h :
     · cases h
     · cases h; exact ⟨rfl, rfl⟩
 
+theorem byteMem_memOf (b : Bytes) : ByteMem (memOf b) := fun i => bAt_lt b i
+
 end EpModel.Lemmas.RefineLax
